@@ -338,7 +338,7 @@ def correspondence(ctx):
     values = [r["spec"] for r in rows if r["kind"] == "value"]
     tasks = [{"task": r["task"], "hash_value": r.get("hash_value", False), "name": r["name"]} for r in rows if r["kind"] == "task"]
     n_corpus_v, n_corpus_t = len(values), len(tasks)
-    nv, nt = ctx.pick(60, 500), ctx.pick(5, 40)
+    nv, nt = ctx.pick(40, 400), ctx.pick(3, 30)
     while len(values) < n_corpus_v + nv:
         s = gen_value(ctx.rng)
         if H.valid(s) and not H.has_cycle(s):
@@ -347,7 +347,12 @@ def correspondence(ctx):
         t = gen_task(ctx.rng)
         if _task_values_ok(t):
             tasks.append({"task": t, "hash_value": ctx.rng.random() < 0.5})
+    import time as _time
+
+    t0 = _time.process_time(), _time.time()
     vrows, trows = observe(ctx, values, tasks, moddir)
+    t1 = _time.process_time(), _time.time()
+    ctx.extra["phase_s"] = {"observe_wall": round(t1[1] - t0[1], 1), "observe_parent_cpu": round(t1[0] - t0[0], 1)}
     # known finding D6: replay of the corpus witnesses
     if any(f["id"] == "D6" for f in ctx.known()):
         det = []
@@ -366,8 +371,10 @@ def correspondence(ctx):
                 fails = fails or bad
                 det.append(f"{r['name']}: value hashes {sorted(map(str, hs))[:3]}, workflow dirs {sorted(wd)[:3]}")
         ctx.finding("D6", fails, "; ".join(det)[:900])
+    t2 = _time.time()
     judge_values(ctx, vrows)
     judge_tasks(ctx, trows)
+    ctx.extra["phase_s"]["model_wall"] = round(_time.time() - t2, 1)
 
 
 def search(ctx):
